@@ -132,6 +132,9 @@ func (fr *frame) call(instr *ssa.Call, c *ssa.CallCommon, st *State) Value {
 				if like != nil && lct != nil && okr {
 					fr.viaFuncParam = true
 					defer func() { fr.viaFuncParam = false }()
+					// self() in the shared contract denotes the function value actually passed
+					fr.dynSelf = fr.val(c.Value).T
+					defer func() { fr.dynSelf = "" }()
 					return fr.callContract(like, lct, append([]Value{recv}, args...), st, resT, pos, nil)
 				}
 			}
@@ -410,6 +413,9 @@ func (fr *frame) callContract(callee *ssa.Function, ct *Contract, args []Value, 
 			}
 			if fr.viaFuncParam && strings.HasPrefix(c.Label, "own") {
 				continue // clause specific to the concrete method, not part of the behavioural interface
+			}
+			if hasTag(c, "local") {
+				continue // proved for the function itself, deliberately not exported to callers (keeps their queries small)
 			}
 			t, err := ev2.EvalBool(c.E)
 			if err != nil {
